@@ -453,6 +453,9 @@ class MultivariateNormal(TMultivariateNormal, Distribution):
             return self
         return self._new_like(mean=self.mean * other, covariance_matrix=self.lazy_covariance_matrix * (other**2))
 
+    def __rmul__(self, other: Number) -> MultivariateNormal:
+        return self.__mul__(other)
+
     def __radd__(self, other: MultivariateNormal) -> MultivariateNormal:
         if other == 0:
             return self
